@@ -28,7 +28,7 @@ claim("C01", "type-specialised SCCP over every pair of set representations (disp
       "UnionSet.unionSetSubsetBucket is unreachable; (R01b) element-type bucket == subset bucket of the set type its builder constructs, sets "
       "route to the generic bucket; (R01c) adding a foreign element to String/Bytes/Array/Dict always goes through toUnionSetWithItem (never "
       "dropped); (R01d) stored rows of two relations are only combined under explicit column projectors; (R02f, shared with C02) the derived count of a slot builder counts distinct slots; (R01e) Array.count is never used as a position in "
-      "Array.values; (R02g) Where/Without of every set representation return the receiver, a normalising constructor's result, or a built value tested for emptiness (one empty set); (R04d) raw rows stand in for projected rows only under isIdentity(); (R05d) dict maps rebuilt from entries keep every value of a key; (R01f) every Dict method that reads map values or the key count handles keys with several values; (R07e) no union by flattening member sets through one "
+      "Array.values; (R02g) Where/Without of every set representation return the receiver, a normalising constructor's result, or a built value tested for emptiness (one empty set); (R04d) raw rows stand in for projected rows only under isIdentity(); (R05d) dict maps rebuilt from entries keep every value of a key; (R01f) every Dict method that reads map values or the key count handles keys with several values; (R01g) the Without of String/Array/Bytes drops a suffix of its store only when the last element is removed; (R07e) no union by flattening member sets through one "
       "set builder; (R03a, shared with C03) no operator writes "
       "into storage an operand or an earlier result still reaches (a result that overwrites its sibling makes a later union/difference wrong). Member arithmetic inside one "
       "representation (Count, Where, Has on colliding keys) is value-level and not decided.", NOTE, "DESIGN.md §3 C01")
@@ -104,7 +104,7 @@ claim("C16", "taint/dominance of the import-path sanitiser with symbolic evaluat
       "../../x); (R16b) root imports read rootPath + / + … from findRootFromModule; (R16c) no lost wake-up in the import cache; (R16d) a cyclic import "
       "re-enters getOrAdd with no owner test (genuine hang, known finding); (R16e) the module-root cache is written only on the true branch of the "
       "sentinel test of the stored root; (R16g) an import-cache key depends on every string input its add callback uses; (R16f) after the confinement check the path is only trimmed, prefixed, joined, cleaned or has text "
-      "removed - never rewritten by a step that can introduce separators; (R16h) every place that appends the script extension does so under a condition on filepath.Ext of the path only (reader, recorder and module bundler resolve one spelling to one file); (R16i) no Dir() under an Ext() test (a directory is not taken for a file because its name has a dot). Which other strings the sanitiser lets through (whitespace, absolute "
+      "removed - never rewritten by a step that can introduce separators, nor trimmed of separators once it carries the module root; (R16h) every place that appends the script extension does so under a condition on filepath.Ext of the path only (reader, recorder and module bundler resolve one spelling to one file); (R16i) no Dir() under an Ext() test (a directory is not taken for a file because its name has a dot). Which other strings the sanitiser lets through (whitespace, absolute "
       "forms), symlinks and equal values across spellings are not decided.", NOTE, "DESIGN.md §3 C16")
 
 claim("C09", "error-discipline and merge-discipline checks over every Pattern.Bind call site (go/ssa def-use, dominance), data-dependence of the agreement test",
@@ -128,7 +128,7 @@ claim("C12", "table extraction and agreement (printer escape table vs reader esc
       "reader (reader table read from the escape switch, from parallel constant strings or from a map literal), and the reader handles \\\\, both quotes and \\x; (R12b) for all 18 value types, every field Equal reads is read by Format/String "
       "(Bytes.offset is not: known finding); (R12c) names are printed unquoted only when they match the grammar's IDENT (pattern equality; no unicode "
       "classification); (R13c) no unchecked float->integer conversion in the number printer; (R12d) the pattern by which Bytes.Format selects the quoted-text form accepts ASCII only (the text is written by the rune-wise "
-      "escaper); (R12e) the `|names|` heading of a relation is written only when every name matches the identifier pattern, and never through a quoting function; (R07b, R06f) printers emit members in a sorted order. The escape reader's index arithmetic (\\xNN off-by-one), number formatting and nesting are value-level and not decided.", NOTE, "DESIGN.md §3 C12")
+      "escaper); (R12f) a field Equal reads is omitted from the print only under an equality test with its default; (R12e) the `|names|` heading of a relation is written only when every name matches the identifier pattern, and never through a quoting function; (R07b, R06f) printers emit members in a sorted order. The escape reader's index arithmetic (\\xNN off-by-one), number formatting and nesting are value-level and not decided.", NOTE, "DESIGN.md §3 C12")
 
 claim("C13", "TS-SCCP of the encoder under each (strict flag, value type) context with data-dependence of the result on the value; shape descriptors of the wire-format switch",
       "Decides two information-loss conditions of the codecs: (R13a) for no data value type with more than one inhabitant does FromArrai (strict or "
@@ -150,7 +150,7 @@ claim("C02", "construction-discipline checks over go/ssa (raw re-slices of holey
       "String/Array is built around a raw re-slice of another value's store outside a trimming constructor; (R02b) a tuple whose name set changed is "
       "returned through a canonicaliser (GenericTuple.With/Without are not: known findings); (R02c) Equal is symmetric for all 153 type pairs; (R02d) "
       "the three shape-specialising switches name all four sugar shapes; (R02e) the layout-sensitive row digest is only taken of canonicalRelation(); "
-      "(R02f) a slot builder's derived field (Array.count, String.holes) comes from a counter guarded by the slot's previous content; (R02g) an emptied representation is returned as the one empty set; (R02h) every field an observer method reads is read by Equal too (Closure.scope is not: known finding); (R02i) no Hash takes a float's bit pattern; "
+      "(R02f) a slot builder's derived field (Array.count, String.holes) comes from a counter guarded by the slot's previous content; (R02g) an emptied representation is returned as the one empty set; (R02h) every field an observer method reads is read by Equal too (Closure.scope is not: known finding); (R02i) no Hash takes a float's bit pattern; (R02j) an index computed on a slice is not used as a bound on its front-cut re-slice; "
       "(R01d, R03a) shared with C01/C03. "
       "Extensionality itself and Equal within one type are not decided.", NOTE, "DESIGN.md §3 C02")
 
